@@ -115,15 +115,33 @@ def expl_job(W):
                 expected_wrap=(('absVal__word', 'type conversion'), ('absVal__lword', 'type conversion'), ('absVal__word', 'unary minus'), ('absVal__lword', 'unary minus')), unwindset=C15.S_UNWIND(W) + ('sp_coprime.0:56',), default_unwind=8, min_obligations=5, timeout=1200, object_bits=12,
                 bounded_note='rows of at most 3 terms with pairwise different variables; every coefficient representable at word width %d, GMP-held coefficients through the exact scaled GMP model' % W,
                 proves='the row-based explanation has positive coefficients and its weighted sum cancels every row variable against the violated bound of the basic variable')
+H_UNB = '''void harness(void) {
+  h_x.x = nondet_u32(); __CPROVER_assume(h_x.x < 0x40000000u);
+  h_n = nondet_int(); __CPROVER_assume(h_n >= 0 && h_n <= 1000000000);
+  g_k = nondet_int(); __CPROVER_assume(g_k >= 0 && g_k < h_n);
+  wf_term(&h_cell);
+  t_bool lower = nondet_bool(); g_sz = 0;
+  x_std_vector_Simplex__ExplTerm r = Simplex__getConflictingBounds((struct Simplex *)0, h_x, lower);
+  __CPROVER_assert(g_sz == h_n + 1, "the explanation has one entry for the violated bound of x and one per term of its row, for a row of any length");
+  __CPROVER_assert(g_e0.boundref.x == BREF(h_x.x, !lower) && FR_WORD(&g_e0.coeff) && g_e0.coeff.num == 1 && g_e0.coeff.den == 1, "first entry: the violated bound of x with coefficient 1");
+  if (h_n > 0) __CPROVER_assert(CELL_OK(lower), "the entry of an arbitrary row term names a bound of that variable, with the positive coefficient |a| and the bound kind that cancels the variable");
+  OSMT_REACH("return");
+}
+'''
+def unb_job():
+    return Job('getConflictingBounds.unbounded.R', 'src/tsolvers/lasolver/Simplex.cc', 'opensmt::Simplex::getConflictingBounds', tier='R', header='contracts/C26/farkas_unb.h', pre_includes=('stubs/gmp_types.h', 'stubs/std_types.h', 'contracts/C26/types.h'),
+               harness=H_UNB, enforce=False, loop_contracts=True, stubs=('opensmt::FastRational::isZero', 'opensmt::isNegative', 'FastRational__op_minus__void', 'FastRational__ctor__FastRational_R', 'FastRational__ctor__word'),
+               opaque=('opensmt::Simplex', 'opensmt::LRAModel', 'opensmt::Tableau', 'opensmt::LABoundStore'), min_obligations=5, timeout=1200, object_bits=12,
+               proves='for a row of ANY length: the explanation entry of every row term is a bound of that variable with coefficient |a| > 0 and the bound kind that cancels it (machine-word coefficients)')
 def jobs(tier):
-    return [expl_job(4)] + ([expl_job(5)] if tier == 'thorough' else []) + [
+    return [unb_job(), expl_job(4)] + ([expl_job(5)] if tier == 'thorough' else []) + [
             piv_job('findNonBasicForPivotByBland', 'opensmt::Simplex::findNonBasicForPivotByBland'), piv_job('findNonBasicForPivotByHeuristic', 'opensmt::Simplex::findNonBasicForPivotByHeuristic'), ab_job(), se_job()]
 def info(tier, results):
-    return {'level': 'other', 'trusted_base': ['clang 14 AST', 'osmt2c lowering', 'CBMC 6.11'],
-            'assumptions': ['the tableau row of a basic variable x is the equation x = sum a_k*y_k over pairwise different non-basic variables with a_k != 0 (Tableau/Polynomial invariant, not verified)',
+    return {'level': 'proof', 'trusted_base': ['clang 14 AST', 'osmt2c lowering', 'CBMC 6.11 (dfcc loop contracts)'],
+            'assumptions': ['in the unbounded job FastRational::isZero / isNegative / unary minus / copy on coefficients are by contract and coefficients are machine-word rationals other than INT_MIN (the GMP path is decided by the bounded job)', 'the tableau row of a basic variable x is the equation x = sum a_k*y_k over pairwise different non-basic variables with a_k != 0 (Tableau/Polynomial invariant, not verified)',
                             'LRAModel::readLBoundRef/readUBoundRef return the active lower/upper bound of the variable asked about; boundTriviallyUnsatisfied is true only when the asserted bound contradicts the active opposite bound',
                             'isModelStrictlyUnderUpperBound / isModelStrictlyOverLowerBound / isModelOutOfLowerBound / isModelOutOfUpperBound compare the model value with the active bounds as their names say (inline Delta comparisons, not under contract)',
                             'non-basic variables are inside their bounds (Simplex invariant); with it and the pivot-selection obligation the constant part of the combination is false',
                             'std::vector, vec<PtAsgn>, std::unique_ptr, the Polynomial iterator behave as the stubs of contracts/C26/farkas.h',
                             'variable ids are below LVRef::Undef; a column has fewer than 2^32 rows'],
-            'explanation': 'C26 is decided function by function on the lowered code of Simplex::getConflictingBounds (bounded: rows of <= 3 terms at scaled width), findNonBasicForPivotByBland/ByHeuristic (bounded: rows of <= 3 terms, real width), Simplex::assertBound (real width, loop-free: complete) and LASolver::storeExplanation (bounded: <= 3 entries).'}
+            'explanation': 'C26 is decided function by function on the lowered code of Simplex::getConflictingBounds (unbounded in the row length by a loop contract at real width; and bounded: rows of <= 3 terms at scaled width with the real FastRational code), findNonBasicForPivotByBland/ByHeuristic (bounded: rows of <= 3 terms, real width), Simplex::assertBound (real width, loop-free: complete) and LASolver::storeExplanation (bounded: <= 3 entries).'}
